@@ -788,8 +788,9 @@ class MemoryPathIO(AbstractPathIO):
             node = self.get_node(path)
             if node is None:
                 raise FileNotFoundError
-            file_like = node.content
-            file_like.seek(0, io.SEEK_SET)
+            # own position for every reader: transfers of the same file at
+            # the same time do not share one
+            file_like = io.BytesIO(node.content.getvalue())
         elif mode in ("wb", "ab", "r+b"):
             node = self.get_node(path)
             if node is None:
